@@ -95,4 +95,15 @@ void c_param_mismatch(void)
   }
   __CPROVER_assert(0, "REACH! c_param_mismatch");
 }
+/* C08: THROW */
+void c_throw(void)
+{
+  SMALL(k); struct OBS o; g_tracer_obj_ptr = 0;
+  C08_THROW(k, &o);
+  __CPROVER_assert(o.ret == 1 && o.extra == 0, "[C08] POST throw.the_caller_receives_the_exception_of_the_THROW_clause_and_no_value");
+  __CPROVER_assert(o.x == k, "[C08] POST throw.the_side_effects_run_before_the_THROW_expression");
+  __CPROVER_assert(o.y == 1, "[C08,C03] POST throw.a_call_that_throws_still_counts_as_handled");
+  __CPROVER_assert(vp_rep_n == 0 && vp_exc == 0 && !vp_terminated, "[C08] POST throw.nothing_is_reported_and_the_expectation_is_released_quietly");
+  __CPROVER_assert(0, "REACH! c_throw");
+}
 int main(void) { VP_ENTRY(); return 0; }
